@@ -12,6 +12,10 @@ CLAIMED = {
  'C12': dict(text="Bounded symbolic model checking of the real reb_particles_transform_* functions (Jacobi, democratic heliocentric, WHDS, barycentric; pos/posvel/acc/posvelacc variants) and of the MERCURIUS/TRACE heliocentric shifts: executed from LLVM IR on symbolic positions, velocities, accelerations and masses for every N<=4/6 and every N_active in 1..N; z3 proves inverse∘forward = identity and forward∘inverse = identity per component, slot 0 = (total active mass, COM position, COM velocity), Jacobi coordinates equal their textbook definition, and the variants agree on common outputs. Counterexamples are replayed natively.",
              note="REAL domain (exact rationals): rounding error magnitude is outside the claim; denominators (partial mass sums) assumed non-zero, m_0>0, masses>=0; N_active=0 outside; inertial_to_barycentric_acc is declared but not defined in the library and therefore not covered.",
              technique="SMT-based bounded symbolic execution of LLVM IR (llsym + z3), rational-function identities", ref='5/C12'),
+
+ 'C14': dict(text="Bounded symbolic model checking of the real particle bookkeeping: reb_simulation_add / remove_particle(index, keep_sorted) / remove_particle_by_hash / particle_by_hash / remove_all_particles and hash assignment are executed from LLVM IR over histories (1..3 adds followed by up to 3 operations; all op sequences in the thorough tier) with symbolic payload bits, symbolic 32-bit hashes (zero and duplicates included), symbolic 32-bit indices and hash arguments, storage made exactly full to cross realloc growth, N_active set/unset. A list-of-records reference model runs in lockstep on the same path condition; for each of the explored paths the solver proves post-state == model, lookup soundness/completeness, failure => simulation unchanged; the memory model checks every access (bounds, use-after-free, invalid free). reb_hash is proved equal to MurmurHash3_x86_32 on symbolic strings of 0..4/8 bytes. A model of every path condition is replayed natively against the list model.",
+             note="UF/BITS domain: doubles are opaque bit patterns; malloc never fails; default integrator (hybrid-integrator and tree removal paths outside); N_active after an unsorted removal or after removing the last particle is undocumented and not asserted; Python Particles container not covered.",
+             technique="SMT-based bounded symbolic execution of LLVM IR with forking (llsym + z3, QF_BV/UF), lockstep reference model", ref='5/C14'),
 }
 NA = {}
 checks = []
